@@ -68,6 +68,75 @@ Theorem C05_new_atom_row : forall s e l c q, Inv s ->
 Proof. exact add_atom_row. Qed.
 Print Assumptions C05_new_atom_row.
 
+(* ---- the SPELLING of optional arguments (Model/MolEditCall.v: `call` records how the arguments were written,
+        `elab` is what the call means).  The optional charge of add_atom omitted / an explicit None (positional or
+        keyword) are one operation; a number as float / int / numpy scalar / 0-d array, a coordinate as list / tuple /
+        ndarray of any dtype / view of a caller's buffer, keyword or positional, likewise; new_atom without a
+        coordinate is new_atom at the origin; label / ap_label left out is label None. *)
+From Molli Require Import Model.MolEditCall Proofs.MolEditCall.
+
+Theorem C05_spelling_irrelevant :
+  (forall e l c kw, elab (CallAddAtom e l c (QNone kw)) = elab (CallAddAtom e l c QOmitted)) /\
+  (forall e l f f' c nf nf' kw kw' t,
+     elab (CallAddAtom e l (CGiven f c) (QNum nf kw t)) = elab (CallAddAtom e l (CGiven f' c) (QNum nf' kw' t))) /\
+  (forall ef ef' e i i' l f f' kw kw' c,
+     elab (CallNewAtom ef e i l (NCGiven f kw c)) = elab (CallNewAtom ef' e i' l (NCGiven f' kw' c))) /\
+  (forall ef e i f kw c,
+     elab (CallNewAtom ef e i LOmitted (NCGiven f kw c)) = elab (CallNewAtom ef e i (LGiven None) (NCGiven f kw c))) /\
+  (forall ef e i l f kw,
+     elab (CallNewAtom ef e i l NCOmitted) = elab (CallNewAtom ef e i l (NCGiven f kw origin_row))) /\
+  (forall s1 s2, elab (CallRemoveSubst s1 s2 LOmitted) = elab (CallRemoveSubst s1 s2 (LGiven None))).
+Proof. exact spelling_irrelevant. Qed.
+Print Assumptions C05_spelling_irrelevant.
+
+(* however the optional charge is spelled, the new atom is the last one, has the row it was given and a NUMERIC
+   charge (the number given, 0 when none was), and the invariant -- every charge a number -- still holds *)
+Theorem C05_optional_charge_numeric : forall s e l f c q, Inv s ->
+  exists s', step s (elab (CallAddAtom e l (CGiven f c) q)) = Ok s' /\ Inv s' /\
+    ids s' = ids s ++ [next_a s] /\
+    row_of s' (next_a s) = Some (c, if has_q s then Some (CNum (q_or_0 q)) else None).
+Proof. exact call_add_atom_row. Qed.
+Print Assumptions C05_optional_charge_numeric.
+
+Theorem C05_new_atom_default_row : forall s ef e i l c, Inv s ->
+  exists s', step s (elab (CallNewAtom ef e i l c)) = Ok s' /\ Inv s' /\
+    ids s' = ids s ++ [next_a s] /\
+    row_of s' (next_a s) = Some (ncval c, if has_q s then Some (CNum 0%Z) else None).
+Proof. exact call_new_atom_row. Qed.
+Print Assumptions C05_new_atom_default_row.
+
+Theorem C05_call_inv_step : forall s c s', Inv s -> (step s (elab c) = Ok s' \/ step s (elab c) = Err s') -> Inv s'.
+Proof. exact call_inv_step. Qed.
+Print Assumptions C05_call_inv_step.
+
+(* what appending the argument as it arrives does: an explicit None leaves a non-number in the charge array
+   WHATEVER default the signature declares (None, or 0.0 "moved into the signature"); with the default None an
+   omitted charge does too (the defect repaired by fa20a13) *)
+Theorem C05_charge_as_is_refuted : forall dflt s e l c kw s', has_q s = true ->
+  add_atom_charge_as_is dflt s e l c (QNone kw) = Ok s' -> ~ Inv s'.
+Proof. exact charge_as_is_breaks. Qed.
+Print Assumptions C05_charge_as_is_refuted.
+
+Theorem C05_charge_as_is_omitted_refuted : forall s e l c s', has_q s = true ->
+  add_atom_charge_as_is None s e l c QOmitted = Ok s' -> ~ Inv s'.
+Proof. exact charge_as_is_omitted_breaks. Qed.
+Print Assumptions C05_charge_as_is_omitted_refuted.
+
+(* non-vacuity: an explicit None after a keyword float32 charge, new_atom with everything left out; the as-is
+   variant with the default 0.0 in the signature does return, with a None in the array *)
+Example C05_spelling_nonvacuous :
+  (exists s', run (empty true)
+                  [ elab (CallAddAtom 6%N (Some 1%N) (CGiven CTuple 11%Z) (QNum NNp32 true 7%Z));
+                    elab (CallAddAtom 8%N None (CGiven CView 12%Z) (QNone false));
+                    elab (CallNewAtom ESym 1%N IOmitted LOmitted NCOmitted);
+                    elab (CallRemoveSubst (ByIdx 0) (ByIdx 1) LOmitted) ] = Some s'
+              /\ inv_b s' = true
+              /\ charges s' = [CNum 7%Z; CNum 0%Z; CNum 0%Z]
+              /\ row_of s' 3%positive = Some (origin_row, Some (CNum 0%Z))) /\
+  (exists s', add_atom_charge_as_is (Some 0%Z) (empty true) 8%N None (CGiven CList 12%Z) (QNone true) = Ok s'
+              /\ charges s' = [CNone] /\ inv_b s' = false).
+Proof. vm_compute. split; eexists; repeat split. Qed.
+
 (* ---- the row an atom shows is the row at its index; idx / get_atom_index are its position *)
 Theorem C05_idx_correct : forall s i a, Inv s -> nth_error (atoms s) i = Some a ->
   idx_of s (a_id a) = Z.of_nat i /\
